@@ -8,6 +8,7 @@ import (
 	"sort"
 	"strings"
 	"testing"
+	"time"
 
 	sdk "github.com/cosmos/cosmos-sdk/types"
 
@@ -128,6 +129,10 @@ func runHistory(r *core.Run, cid string, L int) {
 			h.tssTraffic("fresh-bulk")
 		}
 	}
+	// the light clients expire (nobody updated them for longer than the trusting period) and a receive is presented to a
+	// chain in that state; governance revives the clients below, after which the packet is presented again: whatever the
+	// first attempt was answered with, the triple is accepted once, with one receive and one acknowledgement event
+	expired := h.recvUnderExpiredClients()
 	// closing steps: every client of every chain goes through each governance operation once (whatever was accepted from
 	// that counterparty stays accepted: finalCheck compares the stored receipts and acknowledgements with the accepted set)
 	for _, a := range s.W.Nodes {
@@ -144,6 +149,21 @@ func runHistory(r *core.Run, cid string, L int) {
 			}
 		}
 	}
+	if expired != nil {
+		p := expired
+		rel := s.RandRelayer()
+		if ph, err := s.EnsureClient(p.DstN, p.SrcN, rel, s.ProvableHeight(p.SrcN, p.SendBlock)); err == nil {
+			if msg, err := s.RecvMsg(p, ph, rel); err == nil {
+				o := s.Deliver(p.DstN, rel, "recv-after-revival "+p.Key(), msg)
+				if p.Received {
+					h.judgeReplay(p, o, "after-client-revival")
+				} else {
+					h.afterRecvAttempt(p, o, "after-client-revival", false)
+					r.Count(fmt.Sprintf("recv_after_client_revival/accepted=%v", o.OK()), 1)
+				}
+			}
+		}
+	}
 	// after an accepted sequence b, b+gap for every gap of the list, each followed by b again
 	for _, g := range seqGaps {
 		h.forceGap = g
@@ -157,6 +177,44 @@ func runHistory(r *core.Run, cid string, L int) {
 	if h.nRep > 0 {
 		r.Count("histories_with_replays", 1)
 	}
+}
+
+// recvUnderExpiredClients lets more than the trusting period pass without any client update and presents a pending
+// packet's receive (built while the client was still alive) to its destination. It returns that packet.
+func (h *hist) recvUnderExpiredClients() *pkt.Pkt {
+	s := h.s
+	pr := s.PendingRecv()
+	if len(pr) == 0 {
+		s.Send(s.RandSendSpec(callKinds))
+		pr = s.PendingRecv()
+	}
+	if len(pr) == 0 {
+		return nil
+	}
+	p := pr[s.Rng.Intn(len(pr))]
+	rel := s.RandRelayer()
+	ph, err := s.EnsureClient(p.DstN, p.SrcN, rel, s.ProvableHeight(p.SrcN, p.SendBlock))
+	if err != nil {
+		return nil
+	}
+	msg, err := s.RecvMsg(p, ph, rel)
+	if err != nil {
+		return nil
+	}
+	s.W.Advance(40 * 24 * time.Hour)
+	for _, n := range s.W.Nodes {
+		s.W.Roll(n)
+	}
+	o := s.Deliver(p.DstN, rel, "recv-under-expired-client "+p.Key(), msg)
+	h.r.Eval(fmt.Sprintf("%s/%s/expired-client/%d", h.cid, p.Key(), len(s.Log)), o.Code != 1<<30)
+	h.r.Count(fmt.Sprintf("recv_under_expired_client/accepted=%v", o.OK()), 1)
+	h.afterRecvAttempt(p, o, "under-expired-client", false)
+	if o.OK() {
+		h.orig[p] = msg
+	} else if len(o.Diff) != 0 {
+		h.r.Violation(h.cid, "recv/under-expired-client/rejected-but-state-changed", map[string]interface{}{"packet": p.Key(), "diff": core.TrimDiff(o.Diff, 8)})
+	}
+	return p
 }
 
 // setupTSS gives every chain a TSS-secured counterparty whose account is a registered relayer, and a token bound to it.
